@@ -50,7 +50,10 @@ def assignments(r, n):
     r.shuffle(singles)
     for a, b, s1, s2 in (("root", "fake", "$", "$$"), ("self", "key", "@", "@#"), ("root", "self", "%", "%%"), ("ctx", "keys", ";", ";~"), ("union", "inter", "|", "|%"), ("key", "ctx", "#", "##"),
                          ("fake", "root", "^", "^^"), ("keys", "self", "~", "~@"), ("self", "root", "@", "@$"), ("root", "fake", "%", "%%"), ("self", "key", "+", "++"), ("key", "union", ";", ";;"), ("union", "inter", "`", "``"),
-                         ("inter", "ctx", "{", "{{"), ("ctx", "keys", "}", "}}"), ("fake", "self", "%", "%%%")):
+                         ("inter", "ctx", "{", "{{"), ("ctx", "keys", "}", "}}"), ("fake", "self", "%", "%%%"),
+                         # spellings that differ only by the case of a letter (ASCII, and pairs related only through Unicode case folding)
+                         ("root", "self", "%R", "%r"), ("union", "inter", ";U", ";u"), ("key", "keys", "`K", "`k"), ("fake", "ctx", "{F", "{f"), ("root", "fake", "%Rx", "%rX"),
+                         ("self", "key", "%\u212a", "%k"), ("union", "inter", ";\u00b5", ";\u03bc"), ("ctx", "keys", "}\u03a9", "}\u03c9"), ("root", "self", "%\u017f", "%S")):
         t = dict(DEFAULT_TOKENS)
         t[a], t[b] = s1, s2
         if len(set(t.values())) == 8:
